@@ -218,21 +218,23 @@ def rule_bw1(prog, rep, units, rid='BW1'):
                     capp, capdesc = cap
                     capp = _subst_sizeof(capp, f, prog)
                     lp = _subst_sizeof(poly_of(ln, rd, n.id), f, prog)
-                    off = _subst_sizeof(off, f)
+                    off = _subst_sizeof(off, f, prog)
                     extent = off + lp + (Poly.const(1) if kind == 'store' else Poly.const(0))
                     facts = facts or Facts(f)
                     fa = set(facts.at(n))
-                    # sizeof(B) in facts -> its constant
-                    cc = capp.as_const()
-                    if cc is not None:
-                        fa |= {(a, op, str(cc), d) for (a, op, b, d) in fa if re.sub(r'[()\s]', '', b) in
-                               ('sizeof%s' % base, '(int)sizeof%s' % base, 'intsizeof%s' % base) or
-                               ('sizeof' in b and base in b)}
+                    # sizeof(<local array>) in facts -> its constant
+                    arrs = _local_array_bytes(f)
+                    extra = set()
+                    for (a, op, b, d) in fa:
+                        mm = re.match(r'^\(?(?:\(\w+\))?\s*sizeof\(?\s*(\w+)\s*\)?\)?$', b)
+                        if mm and mm.group(1) in arrs:
+                            extra.add((a, op, str(arrs[mm.group(1)]), d))
+                    fa |= extra
                     ok, why = _fits(capp, extent, fa)
                     if ok is None:
                         # retry with the length/offset as written (locals not expanded through their definitions)
                         sp0 = _split(dst, None, n.id)
-                        ext0 = _subst_sizeof(sp0[1], f) + _subst_sizeof(poly_of(ln, None, n.id), f) + \
+                        ext0 = _subst_sizeof(sp0[1], f, prog) + _subst_sizeof(poly_of(ln, None, n.id), f, prog) + \
                             (Poly.const(1) if kind == 'store' else Poly.const(0))
                         ok, why = _fits(capp, ext0, fa)
                         if ok is not None:
